@@ -63,6 +63,7 @@ using SimSbx = rlbox::rlbox_sim_sandbox;
 using NoopSbx = rlbox::rlbox_noop_sandbox;
 
 extern "C" long g_multi(long (*cb)(long, unsigned), long a, unsigned b, int times);
+extern "C" long g_not_exported(long a); // declared to the application, absent from the sim guest's library
 
 // ---------------------------------------------------------------- script tree
 struct AbortCtl
@@ -155,6 +156,7 @@ struct BT<SimSbx>
   {
     return sb.invoke_sandbox_function(g_multi, owner, a, b, times).UNSAFE_unverified();
   }
+  static long missing(rlbox::rlbox_sandbox<SimSbx>& sb) { return sb.invoke_sandbox_function(g_not_exported, 5).UNSAFE_unverified(); }
   static void* fn_identity(rlbox::rlbox_sandbox<SimSbx>&) { return libs()[0][0].host; }
   static const char* fn_name() { return "g_multi"; }
 };
@@ -170,6 +172,7 @@ struct BT<NoopSbx>
   {
     return sb.template INTERNAL_invoke_with_func_ptr<decltype(g_multi)>(nameless ? nullptr : "g_multi", reinterpret_cast<void*>(&g_multi), owner, a, b, times).UNSAFE_unverified();
   }
+  static long missing(rlbox::rlbox_sandbox<NoopSbx>&) { return 0; }
   static const char* fn_name() { return nameless ? nullptr : "g_multi"; }
   static void* fn_identity(rlbox::rlbox_sandbox<NoopSbx>&) { return reinterpret_cast<void*>(&g_multi); }
 };
@@ -221,8 +224,8 @@ struct Runner
     bool abort_args = BT<Sbx>::foreign && a.hit();
     size_t enter_read = model_reads++;
     if (abort_args) {
-      exp.push_back(ExpHook{ true, 0, n.s, true, st[(size_t)n.s], -1 });
-      exp.push_back(ExpHook{ false, 0, n.s, true, st[(size_t)n.s], -1 });
+      exp.push_back(ExpHook{ true, 0, n.s, true, st[(size_t)n.s], missing_symbol_mode ? -2 : -1 });
+      exp.push_back(ExpHook{ false, 0, n.s, true, st[(size_t)n.s], missing_symbol_mode ? -2 : -1 });
       expt.push_back(ExpTiming{ n.s, 0, enter_read, model_reads++, true });
       throw SimAbort();
     }
@@ -297,6 +300,12 @@ struct Runner
       std::vector<int>& v;
       ~Pop() { v.pop_back(); }
     } pop{ cur_node };
+    if (abort_args && missing_symbol_mode) {
+      // same place in the model (an invocation that ends before the guest is entered), other cause: the function is not
+      // exported and the backend resolves it to null
+      c.fired("F10_function_not_exported_resolves_to_null");
+      return BT<Sbx>::missing(*sb[(size_t)n.s]);
+    }
     if (abort_args)
       c.fired("F9_abort_at_argument_conversion");
     return BT<Sbx>::multi(*sb[(size_t)n.s], *own[(size_t)(n.s * 2 + n.cbsel)], a, 1u, n.width);
@@ -350,6 +359,7 @@ struct Runner
   }
   std::vector<int> child_index;
   int wrong_ref_of = -1;
+  bool missing_symbol_mode = false;
 
   void run(const Plan& p)
   {
@@ -358,6 +368,8 @@ struct Runner
     tree = make_tree((uint64_t)op.a[0], maxdepth, maxwidth, nsbx);
     ctl.fire1 = (int)op.a[3];
     ctl.fire2 = (int)op.a[4];
+    missing_symbol_mode = BT<Sbx>::foreign && (((uint64_t)op.a[5] >> 15) & 1);
+    SimSbx::cfg.lookup_null_on_missing = missing_symbol_mode;
     c.ev("tree seed=%llu nodes=%zu depth<=%d width<=%d fire=%d,%d", (unsigned long long)op.a[0], tree.nodes.size(), maxdepth, maxwidth, ctl.fire1, ctl.fire2);
 #ifdef TR_TIMING
     g_clock_reads.clear();
@@ -444,6 +456,8 @@ struct Runner
       auto same = [&](const ExpHook& e, const HookEv& h) {
         if (h.in != e.in || h.kind != e.kind || h.state != e.state)
           return false;
+        if (e.kind == 0 && e.fn == -2) // the function that is not exported: announced (if at all) under its name, with the null address it resolved to
+          return h.name && strcmp(h.name, "g_not_exported") == 0 && h.ptr == nullptr;
         if (e.kind == 0)
           return (BT<Sbx>::fn_name() ? (h.name && strcmp(h.name, "g_multi") == 0) : h.name == nullptr) && h.ptr == BT<Sbx>::fn_identity(*sb[(size_t)e.s]);
         return h.name == nullptr && h.ptr == keys[(size_t)e.fn];
@@ -539,6 +553,8 @@ struct Runner
             c.violate("C19", "timing_record_out_of_simulated_range@tree", "time %lld (simulated span %lld ns; every crossing spans at least two clock readings)", (long long)rec.time, (long long)g_clock_now);
             break;
           }
+          if (is_inv && missing_symbol_mode && rec.name && strcmp(rec.name, "g_not_exported") == 0 && rec.ptr == nullptr)
+            continue; // the (optional) record of an invocation of the function that is not exported
           if (is_inv ? ((BT<Sbx>::fn_name() ? (!rec.name || strcmp(rec.name, "g_multi") != 0) : rec.name != nullptr) || rec.ptr != BT<Sbx>::fn_identity(*sb[(size_t)s])) : (rec.ptr != keys[(size_t)s * 2] && rec.ptr != keys[(size_t)s * 2 + 1])) {
             c.violate("C19", "timing_record_wrong_identity@tree", "a %s record of sandbox #%d", is_inv ? "INVOKE" : "CALLBACK", s);
             break;
@@ -615,7 +631,7 @@ struct TransitionWorld : World
     o.a[2] = (int64_t)r.below(3);
     o.a[3] = r.chance(1, 6) ? 0 : (int64_t)r.range(1, 30);
     o.a[4] = r.chance(2, 3) ? 0 : (int64_t)r.range(1, 40);
-    o.a[5] = (int64_t)r.below(256) | ((int64_t)r.below(16) << 8) | ((int64_t)r.below(4) << 12) | ((int64_t)r.below(2) << 14);
+    o.a[5] = (int64_t)r.below(256) | ((int64_t)r.below(16) << 8) | ((int64_t)r.below(4) << 12) | ((int64_t)r.below(2) << 14) | ((int64_t)r.chance(1, 4) << 15);
     p.ops.push_back(o);
     return p;
   }
